@@ -282,53 +282,62 @@ func vbRoundTrip() int {
 	keys := []string{"gene", "CDS"}
 	for _, r1 := range ranges {
 		for _, r2 := range ranges {
-			tab := FeatureSlice{}
-			tab = tab.Insert(Feature{"source", Range(0, L), Props{{"organism", "x"}}})
-			tab = tab.Insert(Feature{keys[0], r1, Props{{"gene", "a"}}})
-			tab = tab.Insert(Feature{keys[1], r2, Props{{"gene", "b"}}})
-			orig := make([]Feature, len(tab))
-			copy(orig, tab)
-			seq := New(nil, tab, p)
-			for c1 := 1; c1 < L; c1++ {
-				for c2 := c1; c2 < L; c2++ {
-					cuts := []int{0, c1, L}
-					if c2 > c1 {
-						cuts = []int{0, c1, c2, L}
-					}
-					n++
-					func() {
-						defer func() {
-							if r := recover(); r != nil {
-								vbRecord("restores-after-cut", "other", orig, fmt.Sprintf("cuts=%v panic: %v", cuts, r))
+			for variant := 0; variant < 2; variant++ {
+				tab := FeatureSlice{}
+				if variant == 0 {
+					tab = tab.Insert(Feature{"source", Range(0, L), Props{{"organism", "x"}}})
+				} else {
+					// two source features with different qualifiers (a chimeric record): the second one
+					// is not the first feature of the table
+					tab = tab.Insert(Feature{"source", Range(0, 4), Props{{"organism", "x"}}})
+					tab = tab.Insert(Feature{"source", Range(4, L), Props{{"organism", "y"}}})
+				}
+				tab = tab.Insert(Feature{keys[0], r1, Props{{"gene", "a"}}})
+				tab = tab.Insert(Feature{keys[1], r2, Props{{"gene", "b"}}})
+				orig := make([]Feature, len(tab))
+				copy(orig, tab)
+				seq := New(nil, tab, p)
+				for c1 := 1; c1 < L; c1++ {
+					for c2 := c1; c2 < L; c2++ {
+						cuts := []int{0, c1, L}
+						if c2 > c1 {
+							cuts = []int{0, c1, c2, L}
+						}
+						n++
+						func() {
+							defer func() {
+								if r := recover(); r != nil {
+									vbRecord("restores-after-cut", "other", orig, fmt.Sprintf("cuts=%v panic: %v", cuts, r))
+								}
+							}()
+							var pieces []Sequence
+							for k := 0; k+1 < len(cuts); k++ {
+								pieces = append(pieces, Slice(seq, cuts[k], cuts[k+1]))
+							}
+							cat := Concat(pieces...)
+							got := Repair(cat.Features())
+							want := orig
+							ok := len(got) == len(want)
+							if ok {
+								gs := append([]Feature(nil), got...)
+								ws := append([]Feature(nil), want...)
+								sort.Sort(FeatureSlice(gs))
+								sort.Sort(FeatureSlice(ws))
+								for k := range gs {
+									gl, wl := gs[k].Loc, ws[k].Loc
+									if gs[k].Key == "source" {
+										gl, wl = asComplete(gl), asComplete(wl)
+									}
+									if gs[k].Key != ws[k].Key || !reflect.DeepEqual(gl, wl) || !reflect.DeepEqual(gs[k].Props, ws[k].Props) {
+										ok = false
+									}
+								}
+							}
+							if !ok {
+								vbRecord("restores-after-cut", "other", orig, fmt.Sprintf("cuts=%v got=%v", cuts, got))
 							}
 						}()
-						var pieces []Sequence
-						for k := 0; k+1 < len(cuts); k++ {
-							pieces = append(pieces, Slice(seq, cuts[k], cuts[k+1]))
-						}
-						cat := Concat(pieces...)
-						got := Repair(cat.Features())
-						want := orig
-						ok := len(got) == len(want)
-						if ok {
-							gs := append([]Feature(nil), got...)
-							ws := append([]Feature(nil), want...)
-							sort.Sort(FeatureSlice(gs))
-							sort.Sort(FeatureSlice(ws))
-							for k := range gs {
-								gl, wl := gs[k].Loc, ws[k].Loc
-								if gs[k].Key == "source" {
-									gl, wl = asComplete(gl), asComplete(wl)
-								}
-								if gs[k].Key != ws[k].Key || !reflect.DeepEqual(gl, wl) || !reflect.DeepEqual(gs[k].Props, ws[k].Props) {
-									ok = false
-								}
-							}
-						}
-						if !ok {
-							vbRecord("restores-after-cut", "other", orig, fmt.Sprintf("cuts=%v got=%v", cuts, got))
-						}
-					}()
+					}
 				}
 			}
 		}
